@@ -19,10 +19,7 @@ Theorem C19_bisim_check_correct :
     forall plan, Forall (fun i => In i (all_insts P sigsP)) plan ->
       ostate_eq (run P (spec_step false P) (st_of l0P) plan) (run Q (spec_step false Q) (st_of l0Q) plan) /\
       valid_plan false P (st_of l0P) plan = valid_plan false Q (st_of l0Q) plan.
-Proof.
-  intros P Q MP MQ sigsP sigsQ l0P l0Q n cap H plan HP.
-  destruct (bisim_check_closed_sound P Q MP MQ sigsP sigsQ l0P l0Q n cap H plan HP) as (_ & A & B). split; assumption.
-Qed.
+Proof. exact bisim_check_closed_sound_runs. Qed.
 Print Assumptions C19_bisim_check_correct.
 
 Theorem C19_bisim_check_correct_bounded :
@@ -31,10 +28,7 @@ Theorem C19_bisim_check_correct_bounded :
     forall plan, (length plan <= b)%nat -> Forall (fun i => In i (all_insts P sigsP)) plan ->
       ostate_eq (run P (spec_step false P) (st_of l0P) plan) (run Q (spec_step false Q) (st_of l0Q) plan) /\
       valid_plan false P (st_of l0P) plan = valid_plan false Q (st_of l0Q) plan.
-Proof.
-  intros P Q MP MQ sigsP sigsQ l0P l0Q n cap b H plan HL HP.
-  destruct (bisim_check_bounded_sound P Q MP MQ sigsP sigsQ l0P l0Q n cap b H plan HL HP) as (_ & A & B). split; assumption.
-Qed.
+Proof. exact bisim_check_bounded_sound_runs. Qed.
 Print Assumptions C19_bisim_check_correct_bounded.
 
 Theorem C19_bisim_check_static :
@@ -43,10 +37,7 @@ Theorem C19_bisim_check_static :
     (forall t o, In o (objs_of P t) <-> In o (objs_of Q t)) /\
     (forall i, In i (all_insts P sigsP) <-> In i (all_insts Q sigsP)) /\
     state_eq (st_of l0P) (st_of l0Q).
-Proof.
-  intros P Q MP MQ sigsP sigsQ l0P l0Q n cap H.
-  destruct (bisim_check_static P Q MP MQ sigsP sigsQ l0P l0Q n cap H) as (A & B & C & _). repeat split; auto; apply A || apply B.
-Qed.
+Proof. exact bisim_check_static_objects. Qed.
 Print Assumptions C19_bisim_check_static.
 
 (* structural equality of the temporal part => equal fields *)
